@@ -33,6 +33,7 @@ import (
 
 	"github.com/VKCOM/statshouse/internal/data_model"
 	"github.com/VKCOM/statshouse/internal/format"
+	"github.com/VKCOM/statshouse/internal/verifhook"
 	"github.com/VKCOM/statshouse/internal/verifsim"
 	"github.com/VKCOM/statshouse/internal/vkgo/basictl"
 )
@@ -489,6 +490,219 @@ type w8World struct {
 	snapValid bool
 
 	faulty bool
+
+	// concurrent getters (runs with conc): getters run on their own goroutine and may be parked at the
+	// hook point between RUnlock and TryLock; exactly one goroutine runs at any time
+	conc        bool
+	val         []int32          // value last added for each string (changes only inside the race scenario)
+	everVals    []map[int32]bool // every value ever added for each string
+	gen         []int
+	cur         *w8Getter
+	parked      []*w8Getter
+	lastParkIdx int // string of the last getter that was asked to park (a function of the draws only)
+}
+
+const w8GetPoint = "pcache.get.before_upgrade"
+
+type w8Getter struct {
+	idx                              int
+	actor                            string
+	ts                               uint32
+	bytesAPI                         bool
+	wantPark                         bool
+	parkedCh                         chan struct{}
+	release                          chan struct{}
+	done                             chan struct{}
+	v                                int32
+	ok                               bool
+	allowed                          []int32 // values that were "last added" for the string at some time while the getter ran
+	seenTS                           uint32
+	sawUpdate, sawEvict, sawNewValue bool
+}
+
+// onPoint runs on the getter's goroutine, no lock held.
+func (w *w8World) onPoint(name string) {
+	g := w.cur
+	if g == nil || !g.wantPark || name != w8GetPoint {
+		return
+	}
+	g.wantPark = false
+	g.parkedCh <- struct{}{}
+	<-g.release
+}
+
+// startGetter runs one GetValue on its own goroutine until it finishes or parks at the hook point.
+func (w *w8World) startGetter(g *w8Getter) (parked bool) {
+	g.parkedCh, g.release, g.done = make(chan struct{}), make(chan struct{}), make(chan struct{})
+	cache := w.cache
+	w.cur = g
+	go func() {
+		defer close(g.done)
+		defer w.r.Guard("GetValue(concurrent)")
+		var s string
+		var b []byte
+		switch {
+		case g.idx < len(w.strs):
+			s, b = w.strs[g.idx], w.bstrs[g.idx]
+		case g.idx == len(w.strs):
+			s, b = "", nil
+		default:
+			s, b = w.junk[1], []byte(w.junk[1])
+		}
+		if g.bytesAPI {
+			g.v, g.ok = cache.GetValueBytes(g.ts, b)
+		} else {
+			g.v, g.ok = cache.GetValue(g.ts, s)
+		}
+	}()
+	select {
+	case <-g.parkedCh:
+		parked = true
+	case <-g.done:
+	}
+	w.cur = nil
+	return parked
+}
+
+func (w *w8World) finishGetter(g *w8Getter) {
+	close(g.release)
+	<-g.done
+}
+
+// checkGetter: a getter that overlapped other operations returns a miss or a value that was the
+// last added one for its string at some time while it ran.
+func (w *w8World) checkGetter(g *w8Getter, sig string) bool {
+	r := w.r
+	if !g.ok {
+		return true
+	}
+	if g.idx >= len(w.strs) {
+		r.Fail(w8Prop, "phantom_key", sig, "GetValue of a never added string returned %d", g.v)
+		return false
+	}
+	if w8IsMarker(g.v) {
+		r.Fail(w8Prop, "marker_returned", sig, "after %s: GetValue(string #%d) returned marker value %d", sig, g.idx, g.v)
+		return false
+	}
+	for _, a := range g.allowed {
+		if a == g.v {
+			return true
+		}
+	}
+	r.Fail(w8Prop, "wrong_value", sig, "after %s: GetValue(string #%d) = %d, values last added for it while the call ran: %v", sig, g.idx, g.v, g.allowed)
+	return false
+}
+
+// noteParked records (for probes) what happened to the strings of parked getters.
+func (w *w8World) noteParked() {
+	for _, g := range w.parked {
+		if e, ok := w.cache.cache[w.strs[g.idx]]; !ok {
+			g.sawEvict = true
+		} else if e.accessTS != g.seenTS {
+			g.sawUpdate = true
+		}
+	}
+}
+
+func (w *w8World) releaseOne(k int, sig string) {
+	r := w.r
+	g := w.parked[k]
+	w.parked = append(w.parked[:k:k], w.parked[k+1:]...)
+	w.noteParked()
+	if e, ok := w.cache.cache[w.strs[g.idx]]; !ok {
+		g.sawEvict = true
+	} else if e.accessTS != g.seenTS {
+		g.sawUpdate = true
+	}
+	w.finishGetter(g)
+	if r.Failed() {
+		return
+	}
+	r.Probe("conc_getter_released")
+	if g.sawUpdate {
+		r.Probe("conc_released_after_access_time_update_by_other_getter")
+	}
+	if g.sawEvict {
+		r.Probe("conc_released_after_eviction")
+	}
+	if g.sawNewValue {
+		r.Probe("conc_released_after_readd_with_new_value")
+	}
+	if len(w.parked) > 0 {
+		r.Probe("conc_released_while_others_parked")
+	}
+	w.obs(g.actor, "released getter #%d -> %d %v", g.idx, g.v, g.ok)
+	if !w.checkGetter(g, sig) {
+		return
+	}
+	w.checkState(sig)
+}
+
+func (w *w8World) releaseAll(sig string) {
+	for len(w.parked) > 0 && !w.r.Failed() {
+		w.releaseOne(0, sig)
+	}
+}
+
+// abandonGetters lets leftover goroutines finish at the end of a failed run.
+func (w *w8World) abandonGetters() {
+	for _, g := range w.parked {
+		w.finishGetter(g)
+	}
+	w.parked = nil
+}
+
+// getConc: GetValue/GetValueBytes on its own goroutine, possibly parked between RUnlock and TryLock.
+func (w *w8World) getConc(actor string, bytesAPI bool) {
+	r, c := w.r, w.c
+	i := c.Intn(len(w.strs)+2, "get_str")
+	known := c.Intn(1<<10, "get_known")
+	same := c.Intn(2, "get_same_as_parked")
+	park := c.Intn(2, "get_park")
+	w.now += uint32(c.Intn(3, "get_tick"))
+	if known%4 != 0 {
+		var added []int
+		for j, a := range w.everAdded {
+			if a {
+				added = append(added, j)
+			}
+		}
+		if len(added) > 0 {
+			i = added[(known/4)%len(added)]
+		}
+	}
+	if same == 1 && w.lastParkIdx >= 0 {
+		i = w.lastParkIdx
+	}
+	ts := w.now - w.lag[actorIdx(actor)]
+	g := &w8Getter{idx: i, actor: actor, ts: ts, bytesAPI: bytesAPI, wantPark: park == 1 && i < len(w.strs) && len(w.parked) < 3}
+	if park == 1 && i < len(w.strs) {
+		w.lastParkIdx = i
+	}
+	if i < len(w.strs) {
+		g.allowed = []int32{w.val[i]}
+		g.seenTS = w.cache.cache[w.strs[i]].accessTS
+	}
+	r.Sched("get", actor)
+	r.Event(actor, "Get(conc) bytes=%v #%d t=%d park=%d", bytesAPI, i, ts, park)
+	if w.startGetter(g) {
+		w.parked = append(w.parked, g)
+		r.Probe("conc_getter_parked")
+		if len(w.parked) >= 2 {
+			r.Probe("conc_two_or_more_getters_parked")
+		}
+		w.obs(actor, "getter #%d parked", i)
+		return
+	}
+	if r.Failed() {
+		return
+	}
+	if !w.checkGetter(g, "get") {
+		return
+	}
+	w.noteParked()
+	w.obs(actor, "Get -> %d %v", g.v, g.ok)
+	w.checkState("get")
 }
 
 func (w *w8World) obs(actor, format string, args ...any) {
@@ -603,8 +817,8 @@ func (w *w8World) checkGot(i int, v int32, ok bool, sig string) bool {
 	switch {
 	case w8IsMarker(v):
 		r.Fail(w8Prop, "marker_returned", sig, "after %s: GetValue(string #%d) returned marker value %d", sig, i, v)
-	case v != w8Value(i):
-		r.Fail(w8Prop, "wrong_value", sig, "after %s: GetValue(string #%d) = %d, the value added for it is %d", sig, i, v, w8Value(i))
+	case v != w.val[i]:
+		r.Fail(w8Prop, "wrong_value", sig, "after %s: GetValue(string #%d) = %d, the value last added for it is %d", sig, i, v, w.val[i])
 	case !w.everAdded[i]:
 		r.Fail(w8Prop, "phantom_key", sig, "after %s: GetValue(string #%d) hit but the string was never added", sig, i)
 	default:
@@ -776,6 +990,9 @@ func (w *w8World) save(actor string) {
 
 func (w *w8World) restart(what string, dmg, pos, bit, readFailAt int) {
 	d := w.disk
+	if w.releaseAll("get-released"); w.r.Failed() {
+		return
+	}
 	if d.dead && !w.loud {
 		// whether the armed crash point was reached depends on how many writes the Save made, which
 		// in a quiet run depends on map order: neither logged nor part of the schedule signature
@@ -792,6 +1009,15 @@ func (w *w8World) restart(what string, dmg, pos, bit, readFailAt int) {
 	if w.r.Failed() {
 		return
 	}
+	if w.conc {
+		// the file may hold an older generation of a value than the one re-added since the last save
+		// (by design: stale or no mappings after a restart); it must be a value that was added
+		for k, e := range w.cache.cache {
+			if i, ok := w.index[k]; ok && w.everVals[i][e.value] {
+				w.val[i] = e.value
+			}
+		}
+	}
 	w.checkState("load")
 }
 
@@ -805,13 +1031,16 @@ func (w *w8World) addValues(actor string, dups bool) {
 	for j := 0; j < n; j++ {
 		kind := c.Intn(8, "pair_kind")
 		i := c.Intn(len(w.strs), "pair_str")
+		if w.conc && c.Intn(2, "pair_same_as_parked") == 1 && w.lastParkIdx >= 0 {
+			i = w.lastParkIdx // meet the getter that was asked to park (a function of the draws only)
+		}
 		switch {
 		case kind == 5: // marker value for a real string
 			m := []int32{0, format.TagValueIDMappingFlood, format.TagValueIDDoesNotExist}[c.Intn(3, "marker")]
 			pairs = append(pairs, MappingPair{Str: w.strs[i], Value: m})
 			desc = append(desc, fmt.Sprintf("#%d=marker(%d)", i, m))
 		case kind == 6: // empty string
-			v := []int32{w8Value(i), 0}[c.Intn(2, "empty_val")]
+			v := []int32{w.val[i], 0}[c.Intn(2, "empty_val")]
 			pairs = append(pairs, MappingPair{Str: "", Value: v})
 			desc = append(desc, fmt.Sprintf("\"\"=%d", v))
 		case kind == 7 && dups && len(pairs) > 0: // repeat an earlier pair of this batch
@@ -829,7 +1058,28 @@ func (w *w8World) addValues(actor string, dups bool) {
 				}
 				hasDup = true
 			}
-			pairs = append(pairs, MappingPair{Str: w.strs[i], Value: w8Value(i)})
+			if w.conc && c.Intn(2, "new_value") == 1 && w.loud && !fresh[i] {
+				// the race scenario: a getter of this string is parked, the string was evicted meanwhile and
+				// comes back with another value (the API allows it; production mappings are immutable)
+				_, present := w.cache.cache[w.strs[i]]
+				waiting := false
+				for _, g := range w.parked {
+					waiting = waiting || g.idx == i
+				}
+				if !present && waiting {
+					w.gen[i]++
+					w.val[i] = w8Value(i) + int32(1_000_000*w.gen[i])
+					w.everVals[i][w.val[i]] = true
+					for _, g := range w.parked {
+						if g.idx == i {
+							g.allowed = append(g.allowed, w.val[i])
+							g.sawNewValue = true
+						}
+					}
+					r.Probe("conc_readd_with_new_value_while_getter_parked")
+				}
+			}
+			pairs = append(pairs, MappingPair{Str: w.strs[i], Value: w.val[i]})
 			desc = append(desc, fmt.Sprintf("#%d", i))
 			w.everAdded[i] = true
 			fresh[i] = true
@@ -865,6 +1115,7 @@ func (w *w8World) addValues(actor string, dups bool) {
 		r.Probe("add_at_size_limit")
 	}
 	w.obs(actor, "AddValues -> size %d->%d entries=%d", before, after, len(w.cache.cache))
+	w.noteParked()
 	w.checkState(sig)
 }
 
@@ -935,17 +1186,26 @@ func w8Cache(r *verifsim.Run) {
 	w := &w8World{r: r, c: c, disk: newW8Disk(r)}
 	regime := c.Intn(3, "regime") // 0: no size pressure, everything order independent
 	w.faulty = c.Intn(3, "faulty") != 0
+	w.conc = c.Intn(3, "concurrent_getters") == 1
+	w.lastParkIdx = -1
 	class := c.Intn(3, "strclass")
 	var n int
-	if class == 2 {
+	switch {
+	case w.conc: // few strings, so that getters and modifiers meet on the same one; no storage faults
+		n = 2 + c.Intn(5, "nstr")
+		w.faulty = false
+	case class == 2:
 		n = 16 + c.Intn(30, "nstr")
-	} else {
+	default:
 		n = 3 + c.Intn(38, "nstr")
 	}
 	// the same string twice in one batch: only where the outcome does not depend on which entries
 	// an earlier eviction happened to pick (regime 0), so that a failure replays
 	dups := c.Intn(6, "dups_in_batch") == 1 && regime == 0
 	ttl := []int{0, 10, 100}[c.Intn(3, "ttl")]
+	if w.conc && ttl == 0 {
+		ttl = 5
+	}
 	w.lag[1] = []uint32{0, 1, 5, 50}[c.Intn(4, "lag")]
 	w.now = 1_000_000 + uint32(c.Intn(1000, "t0"))
 	start := w.now
@@ -961,6 +1221,11 @@ func w8Cache(r *verifsim.Run) {
 	}
 	w.junk = []string{"", "\x00never-added", w.strs[0] + "x"}
 	w.everAdded = make([]bool, n)
+	for i := 0; i < n; i++ {
+		w.val = append(w.val, w8Value(i))
+		w.everVals = append(w.everVals, map[int32]bool{w8Value(i): true})
+	}
+	w.gen = make([]int, n)
 	w.maxTTL = ttl
 	w.loud = regime == 0
 	if regime == 0 {
@@ -980,25 +1245,39 @@ func w8Cache(r *verifsim.Run) {
 	r.Config["ttl"] = ttl
 	r.Config["dups_in_batch"] = dups
 	r.Config["deterministic_flag"] = w.det
+	r.Config["concurrent_getters"] = w.conc
 	defer func() { r.SimNanos = int64(w.now-start) * 1e9 }()
+	if w.conc {
+		verifhook.SetOnPoint(w.onPoint)
+		defer func() {
+			w.abandonGetters()
+			verifhook.SetOnPoint(nil)
+		}()
+	}
 
 	w.restart("first-start", 0, 0, 0, 0)
 	ops := 8 + c.Intn(50, "ops")
 	for op := 0; op < ops && !r.Failed(); op++ {
 		actor := []string{"t0", "t1"}[c.Intn(2, "task")]
+		if w.conc {
+			// the number of draws of a step never depends on whether a getter is parked
+			if c.Intn(4, "conc_step") == 1 {
+				k := c.Intn(8, "release_idx")
+				r.Sched("release", actor)
+				r.Event(actor, "release parked getter %d", k)
+				if len(w.parked) > 0 {
+					w.releaseOne(k%len(w.parked), "get-released")
+				}
+				continue
+			}
+		}
 		switch k := c.Intn(16, "op"); {
-		case k <= 3:
-			w.addValues(actor, dups)
-		case k <= 6:
-			w.get(actor, false)
-		case k <= 8:
-			w.get(actor, true)
-		case k <= 10:
-			step := []uint32{1, 2, 10, 100, 0}[c.Intn(5, "tick")]
-			w.now += step
-			r.Sched("tick", "clock")
-			r.Event("clock", "now=%d", w.now)
-		case k == 11:
+		case k == 11 || (w.conc && (k == 13 || k == 3)):
+			if w.conc && k == 3 && w.maxTTL > 0 {
+				// let everything expire, so that the string of a parked getter is evicted under it
+				w.now += uint32(w.maxTTL) + 1 + w.lag[1]
+				r.Event("clock", "now=%d", w.now)
+			}
 			maxCount := n + 5
 			if regime != 0 {
 				maxCount = []int{n + 5, 1, 3}[c.Intn(3, "ttl_maxcount")]
@@ -1008,9 +1287,25 @@ func w8Cache(r *verifsim.Run) {
 			r.Event(actor, "RemoveByTTL max=%d t=%d", maxCount, ts)
 			w.call("RemoveByTTL", func() { w.cache.RemoveByTTL(maxCount, ts) })
 			if !r.Failed() {
+				w.noteParked()
 				w.obs(actor, "RemoveByTTL -> entries=%d", len(w.cache.cache))
 				w.checkState("removettl")
 			}
+		case k <= 2 || (k == 3 && !w.conc):
+			w.addValues(actor, dups)
+		case k >= 4 && k <= 6 && w.conc:
+			w.getConc(actor, false)
+		case k >= 7 && k <= 8 && w.conc:
+			w.getConc(actor, true)
+		case k <= 6:
+			w.get(actor, false)
+		case k <= 8:
+			w.get(actor, true)
+		case k <= 10:
+			step := []uint32{1, 2, 10, 100, 0}[c.Intn(5, "tick")]
+			w.now += step
+			r.Sched("tick", "clock")
+			r.Event("clock", "now=%d", w.now)
 		case k == 12:
 			if regime != 0 {
 				w.maxSize = []int64{size0, size0 / 2, size0 / 4, 1}[c.Intn(4, "newsize")]
@@ -1036,6 +1331,9 @@ func w8Cache(r *verifsim.Run) {
 			}
 			w.restart("restart", dmg, pos, bit, rf)
 		}
+	}
+	if !r.Failed() {
+		w.releaseAll("get-released")
 	}
 	if !r.Failed() {
 		// end of life: final save and reload, as the binaries do on shutdown
